@@ -592,10 +592,11 @@ def c19(ev, tier, seed):
                "upper / lower / mixed case, with the last byte dropped, with one non-ASCII substitution and one appended byte, all pairs "
                "per name; replayed on VarName / OwnedVarName through every constructor, a recording Hasher, a HashMap lookup and "
                "From<&HeaderName>. This is a transcription + vector binding, the weakest use of the technique here.")
-    depth = 3 if tier == "thorough" else 2
-    laws = "SPECIFICATION Spec\nCONSTANTS\n  Mode = \"laws\"\n  Depth = %d\nINVARIANTS Laws Emit\nCHECK_DEADLOCK FALSE\n" % depth
-    stats, h = cl.run_tlc_piped("C19-laws", "MC_VarName", laws, ["cgi-vectors", "--prop", "C19"], workers=4, timeout=1500)
-    ev.add_tlc("MC_VarName laws depth=%d" % depth, stats)
+    # depth 2 over the full alphabet (incl. the bytes next to the letter ranges); thorough adds depth 3 over the eight-symbol core
+    for depth in ((2, 3) if tier == "thorough" else (2,)):
+        laws = "SPECIFICATION Spec\nCONSTANTS\n  Mode = \"laws\"\n  Depth = %d\nINVARIANTS Laws Emit\nCHECK_DEADLOCK FALSE\n" % depth
+        stats, h = cl.run_tlc_piped("C19-laws-%d" % depth, "MC_VarName", laws, ["cgi-vectors", "--prop", "C19"], workers=max(4, cl.NCPU - 4), timeout=1500)
+        ev.add_tlc("MC_VarName laws depth=%d" % depth, stats)
     names = os.path.join(cl.OUT, "C19-names.ndjson")
     subprocess.run([cl.HARNESS, "dump-names", "--file", names, "--limit", "400" if tier == "thorough" else "40"], check=True)
     vec = "SPECIFICATION Spec\nCONSTANTS\n  Mode = \"vectors\"\n  Depth = 1\nINVARIANTS Laws Emit\nCHECK_DEADLOCK FALSE\n"
